@@ -1,6 +1,7 @@
 import Driver.Proto
 import AdaptaVerif.Model.Bends
 import AdaptaVerif.Check.Hanan
+import AdaptaVerif.Check.OrthGraph
 /-!
 Driver mode `c05`.
 
@@ -231,7 +232,98 @@ def checkScene (c : Case) : CaseResult := Id.run do
       else
         return { verdict := .diverge s!"valid route cheaper than certified optimum: cost {ratToString cost} < {ratToString opt} (offGrid={offGrid}) — oracle/Hanan assumption broken", stats := stats }
 
+/-! ### direction-restricted scenes: optimum of libavoid's own visibility graph -/
+
+/-- merge collinear hops: (heading, length) legs of an axis-parallel polyline -/
+def legsOf : List (Rat × Rat) → List (Nat × Rat)
+  | a :: b :: t =>
+    let rest := legsOf (b :: t)
+    let len := AdaptaVerif.Check.Hanan.absR (b.1 - a.1) + AdaptaVerif.Check.Hanan.absR (b.2 - a.2)
+    let h := if b.1 > a.1 then 1 else if b.1 < a.1 then 3 else if b.2 > a.2 then 2 else 0
+    if len = 0 then rest
+    else match rest with
+      | (h', l') :: r => if h' = h then (h, len + l') :: r else (h, len) :: rest
+      | [] => [(h, len)]
+  | _ => []
+
+def parseAdj (ts : Array String) : Array (List Nat) := Id.run do
+  let mut out : Array (List Nat) := #[]
+  let mut i := 0
+  while i < ts.size do
+    let deg := nat! ts[i]!
+    out := out.push (((List.range deg).map fun j => nat! (ts[i + 1 + j]?.getD "0")))
+    i := i + 1 + deg
+  return out
+
+def witVG (g : AdaptaVerif.Check.OrthGraph.VG) : Nat → List Nat → List AdaptaVerif.Check.OrthGraph.VState
+  | _, [] => []
+  | u, w :: t =>
+    match AdaptaVerif.Check.OrthGraph.hop g u w with
+    | some (d, _) => ⟨w, d⟩ :: witVG g w t
+    | none => ⟨w, 9⟩ :: witVG g w t
+
+def checkSceneVG (c : Case) : CaseResult := Id.run do
+  let some pen := (c.get1 "pen").bind (fun l => num? l[0]!) | return { verdict := .diverge "no pen" }
+  let some sl := c.get1 "src" | return { verdict := .diverge "no src" }
+  let some tl := c.get1 "dst" | return { verdict := .diverge "no dst" }
+  let some sv := nums? (sl.extract 0 2) | return { verdict := .diverge "bad src" }
+  let some tv := nums? (tl.extract 0 2) | return { verdict := .diverge "bad dst" }
+  let smask := nat! sl[2]!
+  let tmask := nat! tl[2]!
+  let which := if smask != 15 && tmask != 15 then "source+target" else if smask != 15 then "source" else if tmask != 15 then "target" else "none"
+  let stats0 : List (String × Nat) := [(s!"pen.{ratToString pen}", 1), (s!"restricted.{which}", 1)]
+  let some rl := c.get1 "route" | return { verdict := .diverge "no route line (crash?)" }
+  let some dl := c.get1 "display" | return { verdict := .diverge "no display line" }
+  let some route := pts? rl | return { verdict := .diverge "unparsable route" }
+  let some disp := pts? dl | return { verdict := .diverge "unparsable display route" }
+  if let some (a, b) := firstDiagonal route then
+    return { verdict := .specfail s!"route() segment not axis-parallel: ({ratToString a.1},{ratToString a.2})-({ratToString b.1},{ratToString b.2})", stats := stats0 }
+  if let some (a, b) := firstDiagonal disp then
+    return { verdict := .specfail s!"displayRoute() segment not axis-parallel: ({ratToString a.1},{ratToString a.2})-({ratToString b.1},{ratToString b.2})", stats := stats0 }
+  if route.head? != some (sv[0]!, sv[1]!) || route.getLast? != some (tv[0]!, tv[1]!) then
+    return { verdict := .diverge "route() does not join the endpoints", stats := stats0 }
+  let legs := legsOf route
+  let hs := legs.map (·.1)
+  let firstOk := match hs.head? with | some h => smask &&& visBit h != 0 | none => false
+  let lastOk := match hs.getLast? with | some h => tmask &&& visBit ((h + 2) % 4) != 0 | none => false
+  if !firstOk || !lastOk then
+    return { verdict := .specfail s!"route violates direction restriction of the {if !firstOk then "source" else "target"} (masks {smask}/{tmask}; restricted: {which})", stats := stats0 }
+  let reach := ((c.get1 "vgreachable").map (fun l => l[0]! == "1")).getD false
+  if !reach then
+    return { verdict := .diverge "oracle finds no route in the dumped visibility graph although the router returned one", stats := stats0 }
+  let some xs := (c.get1 "vgx").bind nums? | return { verdict := .diverge "no vgx" }
+  let some ys := (c.get1 "vgy").bind nums? | return { verdict := .diverge "no vgy" }
+  let some al := c.get1 "vga" | return { verdict := .diverge "no vga" }
+  let some st := c.get1 "vgs" | return { verdict := .diverge "no vgs" }
+  let some pot := (c.get1 "vgpot").bind nums? | return { verdict := .diverge "no vgpot" }
+  let some wl := c.get1 "vgwit" | return { verdict := .diverge "no vgwit" }
+  let g : AdaptaVerif.Check.OrthGraph.VG :=
+    { xs := xs, ys := ys, adj := parseAdj al, src := nat! st[0]!, tar := nat! st[1]!, pen := pen }
+  let wit := wl.toList.map nat!
+  let cert : AdaptaVerif.Check.OrthGraph.Cert := { pot := pot, wit := witVG g g.src wit }
+  match AdaptaVerif.Check.OrthGraph.checkCert g cert with
+  | none => return { verdict := .diverge s!"own-graph certificate rejected: {AdaptaVerif.Check.OrthGraph.explain g cert}", stats := stats0 }
+  | some opt =>
+    let nb := bendsOfHeadings hs
+    let cost := polyLen route + (nb : Rat) * pen
+    let stats := (s!"route.bends.{min nb 6}", 1) :: ("vg.vertices", xs.size) :: stats0
+    if AdaptaVerif.Check.Hanan.absR (cost - opt) ≤ tol then
+      return { verdict := .ok, nontrivial := nb > 0, stats := stats }
+    else if cost > opt then
+      -- where does the cheapest route of the graph leave the route that was returned?
+      let wpts := (g.xs.getD g.src 0, g.ys.getD g.src 0) :: wit.map fun v => (g.xs.getD v 0, g.ys.getD v 0)
+      let wlegs := legsOf wpts
+      let lost := match legs.head?, wlegs.head? with
+        | some (h, l), some (h', l') => if h = h' && l' < l && wlegs.length > 1 then "first-segment" else if h != h' then "first-heading" else "later"
+        | _, _ => "later"
+      return { verdict := .specfail s!"suboptimal route in libavoid's own visibility graph: cost {ratToString cost} ({nb} bends) > graph optimum {ratToString opt} ({wlegs.length - 1} bends); penalty {ratToString pen}; restricted: {which} (masks {smask}/{tmask}); optimal turn not taken: {lost}", stats := stats }
+    else
+      return { verdict := .diverge s!"route cheaper than the optimum of the dumped graph: {ratToString cost} < {ratToString opt} (route uses an edge that was not dumped?)", stats := stats }
+
 def run (_args : List String) : IO UInt32 :=
-  runCases (fun c => if c.tag.startsWith "scene" then checkScene c else checkKernels c)
+  runCases (fun c =>
+    if c.tag.startsWith "scene-dirs" then checkSceneVG c
+    else if c.tag.startsWith "scene" then checkScene c
+    else checkKernels c)
 
 end Driver.C05
